@@ -5,6 +5,8 @@
 //   { id, repo, table: {key: nativeResult|{error}}, texts: {version: text}, config, steps: [{op, file, version, mode}] }
 // -> { id, events: [...] }   (one event per step, with what the package returned / reported)
 'use strict'
+process.stdout.on('error', () => process.exit(0))
+process.stderr.on('error', () => process.exit(0))
 const path = require('path')
 const vm = require('vm')
 const Module = require('module')
